@@ -96,6 +96,7 @@ func runC03(c *Cfg) {
 	runSpecial(c, "C03", "default-post")
 	runSpecial(c, "C03", "wildcard-lookalike-actions")
 	runSpecial(c, "C03", "startless-inner-flow-with-edges")
+	runSpecial(c, "C03", "cycle-through-retried-inner-flow")
 	// 1. exhaustive small space
 	type space struct{ nn, tables, scripts int }
 	spaces := []space{{1, pow(3, 2), 6}, {2, pow(4, 4), 36}, {3, pow(5, 6), 216}}
